@@ -367,18 +367,34 @@ func c02DisruptiveRecords(c *an.Ctx) {
 			if v, ok := fields["RuleID"]; ok {
 				rid = an.Expr(v)
 			}
-			ridOK := rid == "φ(r.ID()|r.ParentID())"
-			if ridOK {
-				// the ParentID edge must come from a block guarded by r.ID() == 0
-				if phi, ok := fields["RuleID"].(*ssa.Phi); ok {
-					for i, e := range phi.Edges {
-						if strings.HasSuffix(an.Expr(e), ".ParentID()") {
-							pb := phi.Block().Preds[i]
-							if !an.FactsAtBlock(pb).Has("r.ID()", "==", "0") && !(an.FactsAtBlock(pb).Has("r.ID()", "==", "0") || blockHasFact(pb, "r.ID()", "==", "0")) {
-								ridOK = false
+			// every value the field can take is the rule's own id, or the parent's id on a path where the own id
+			// is known to be 0 (whether written as if/else, a named local or a private helper)
+			ridOK := false
+			if v, ok := fields["RuleID"]; ok {
+				nID, nParent := 0, 0
+				ridOK = true
+				for _, lf := range leavesOf(v, an.FactsAt(in), 0) {
+					cc, isCall := lf.V.(*ssa.Call)
+					switch {
+					case isCall && cc.Call.IsInvoke() && cc.Call.Method.Name() == "ID":
+						nID++
+					case isCall && cc.Call.IsInvoke() && cc.Call.Method.Name() == "ParentID":
+						nParent++
+						okG := false
+						for _, a := range lf.F {
+							if strings.HasSuffix(a.L, ".ID()") && a.Op == "==" && a.R == "0" {
+								okG = true
 							}
 						}
+						if !okG {
+							ridOK = false
+						}
+					default:
+						ridOK = false
 					}
+				}
+				if nID == 0 || nParent == 0 {
+					ridOK = false
 				}
 			}
 			c.Check(ridOK, "R5", "RuleID in "+name, in.Pos(), "RuleID = r.ID() with ParentID() fallback when ID is 0", "Interruption.RuleID is not r.ID() with the ParentID() fallback under r.ID()==0: "+rid)
